@@ -135,3 +135,42 @@ package safehtml
 //@   loop 1
 //@     invariant len(b) == slen(seq(b))
 //@     invariant seqeq(seq(b), catupto(htmls, rangeidx))
+
+//@ func filter(value string, pattern *regexp.Regexp) (r string)
+//@   serves C15
+//@   ensures keep: matches(pattern, value) ==> sameview(r, value)
+//@   ensures drop: !matches(pattern, value) ==> seqeq(r, "zGoSafezInvalidPropertyValue")
+
+//@ func cssEscapeString(s string) (r string)
+//@   serves C15
+//@   ensures spec: seqeq(r, cssesc(s))
+//@   loop 1
+//@     invariant len(b) == slen(seq(b))
+//@     invariant seqeq(seq(b), cssescupto(utf8dec(s), rangeidx))
+
+//@ func StyleFromProperties(properties StyleProperties) (r Style)
+//@   serves C15
+//@   ensures layout: seqeq(r.str, lcat(bgdecl(properties.BackgroundImageURLs), fontdecl(properties.FontFamily), edecl(properties.Display, "display:"), rdecl(properties.BackgroundColor, "background-color:"), rdecl(properties.BackgroundPosition, "background-position:"), rdecl(properties.BackgroundRepeat, "background-repeat:"), rdecl(properties.BackgroundSize, "background-size:"), rdecl(properties.Color, "color:"), rdecl(properties.Height, "height:"), rdecl(properties.Width, "width:"), rdecl(properties.Left, "left:"), rdecl(properties.Right, "right:"), rdecl(properties.Top, "top:"), rdecl(properties.Bottom, "bottom:"), rdecl(properties.FontWeight, "font-weight:"), rdecl(properties.Padding, "padding:"), rdecl(properties.ZIndex, "z-index:")))
+//@   step 2: seqeq(seq(buf), lcat(before(seq(buf)), bgdecl(properties.BackgroundImageURLs))) && len(buf) == slen(seq(buf))
+//@   step 3: seqeq(seq(buf), lcat(before(seq(buf)), fontdecl(properties.FontFamily))) && len(buf) == slen(seq(buf))
+//@   step 4: seqeq(seq(buf), lcat(before(seq(buf)), edecl(properties.Display, "display:"))) && len(buf) == slen(seq(buf))
+//@   step 5: seqeq(seq(buf), lcat(before(seq(buf)), rdecl(properties.BackgroundColor, "background-color:"))) && len(buf) == slen(seq(buf))
+//@   step 6: seqeq(seq(buf), lcat(before(seq(buf)), rdecl(properties.BackgroundPosition, "background-position:"))) && len(buf) == slen(seq(buf))
+//@   step 7: seqeq(seq(buf), lcat(before(seq(buf)), rdecl(properties.BackgroundRepeat, "background-repeat:"))) && len(buf) == slen(seq(buf))
+//@   step 8: seqeq(seq(buf), lcat(before(seq(buf)), rdecl(properties.BackgroundSize, "background-size:"))) && len(buf) == slen(seq(buf))
+//@   step 9: seqeq(seq(buf), lcat(before(seq(buf)), rdecl(properties.Color, "color:"))) && len(buf) == slen(seq(buf))
+//@   step 10: seqeq(seq(buf), lcat(before(seq(buf)), rdecl(properties.Height, "height:"))) && len(buf) == slen(seq(buf))
+//@   step 11: seqeq(seq(buf), lcat(before(seq(buf)), rdecl(properties.Width, "width:"))) && len(buf) == slen(seq(buf))
+//@   step 12: seqeq(seq(buf), lcat(before(seq(buf)), rdecl(properties.Left, "left:"))) && len(buf) == slen(seq(buf))
+//@   step 13: seqeq(seq(buf), lcat(before(seq(buf)), rdecl(properties.Right, "right:"))) && len(buf) == slen(seq(buf))
+//@   step 14: seqeq(seq(buf), lcat(before(seq(buf)), rdecl(properties.Top, "top:"))) && len(buf) == slen(seq(buf))
+//@   step 15: seqeq(seq(buf), lcat(before(seq(buf)), rdecl(properties.Bottom, "bottom:"))) && len(buf) == slen(seq(buf))
+//@   step 16: seqeq(seq(buf), lcat(before(seq(buf)), rdecl(properties.FontWeight, "font-weight:"))) && len(buf) == slen(seq(buf))
+//@   step 17: seqeq(seq(buf), lcat(before(seq(buf)), rdecl(properties.Padding, "padding:"))) && len(buf) == slen(seq(buf))
+//@   step 18: seqeq(seq(buf), lcat(before(seq(buf)), rdecl(properties.ZIndex, "z-index:"))) && len(buf) == slen(seq(buf))
+//@   loop 1
+//@     invariant len(buf) == slen(seq(buf))
+//@     invariant seqeq(seq(buf), cat("background-image:", bgupto(properties.BackgroundImageURLs, i)))
+//@   loop 2
+//@     invariant len(buf) == slen(seq(buf))
+//@     invariant seqeq(seq(buf), lcat(bgdecl(properties.BackgroundImageURLs), cat("font-family:", fontupto(properties.FontFamily, i))))
